@@ -234,6 +234,13 @@ func Build(v sb.V) interface{} {
 			out[i] = Build(e)
 		}
 		return out
+	case "arrcap":
+		// a list built with append: room left behind its last element
+		out := make([]stick.Value, 0, len(v.E)+8)
+		for _, e := range v.E {
+			out = append(out, Build(e))
+		}
+		return out
 	case "hash":
 		out := make(map[string]stick.Value, len(v.E))
 		for i, e := range v.E {
